@@ -13,7 +13,16 @@ ITER_PROCS = {
 HEURISTICS = ['Simple', 'MinModMinPathsMaxVarImp', 'MinModMaxVarImpMinPaths', 'Rand', 'Custom']
 
 
+def split_backend(proc):
+    """'bio/stable' -> ('bio', 'stable'): the procedure of the biodivine-based Adf; 'hyb/...' : hybrid_step() first, then the naive procedure;
+    'hybraw/...': hybrid_step_opt(false).  Without prefix: the naive Adf built directly."""
+    if '/' in proc:
+        b, q = proc.split('/', 1); return b, q
+    return 'naive', proc
+
+
 def oracle_kind(proc):
+    proc = split_backend(proc)[1]
     if proc == 'grounded': return 'grounded'
     if proc == 'complete': return 'complete'
     if proc.startswith('twoval'): return 'models'
@@ -67,6 +76,37 @@ def run_proc(e, proc, ra, adf):
         out.append(rcv.ch.q[rcv.ch.head]); rcv.ch.head += 1
     if rcv.ch.senders != 0: side['consumer_would_block'] = True
     return out, side
+
+
+def make_bio_adf(e, tabs, n):
+    """adfbiodivine::Adf whose conditions are the (symbolic) truth tables, as values of the biodivine contract model (mirse/models_bio.py).
+    The struct is assembled directly (from_parser needs a concrete text; it is exercised by the concrete differential runs and C09/C10)."""
+    from mirse import models_bio as B
+    names = ['s%d' % i for i in range(n)]
+    nm = CellObj(CellObj(VecObj([StrBuf(x) for x in names]), 'rwlock'), 'arc')
+    mp = MapObj(); mp.e = [[StrBuf(x), [i]] for i, x in enumerate(names)]
+    vals = {'ordering': Struct([nm, CellObj(CellObj(mp, 'rwlock'), 'arc')]),
+            'ac': VecObj([B.BioBdd(n, [x if is_sym(x) else bool(x) for x in t]) for t in tabs]),
+            'vars': VecObj([Struct([i]) for i in range(n)]), 'varset': B.BioVarSet(names), 'rewrite': NONE()}
+    order = e.structs_q[('lib/src/adfbiodivine.rs', 'Adf')]
+    bio = Struct([vals[f] for f in order])
+    return bio, Ref([bio], 0)
+
+
+def run_backend(e, proc, tabs, n):
+    """-> (results, side facts, naive bdd or None)"""
+    backend, inner = split_backend(proc)
+    bio, rb = make_bio_adf(e, tabs, n)
+    if backend == 'bio':
+        if inner == 'grounded': return [e.call('adfbiodivine::Adf::grounded', [rb])], {}, None
+        if inner in ('complete', 'stable'): return A.drain(e, e.call('adfbiodivine::Adf::%s' % inner, [rb])), {}, None
+        if inner == 'stable_rew': return list(e.call('adfbiodivine::Adf::stable_bdd_representation', [rb]).items), {}, None
+        raise Unsupported('biodivine back-end procedure ' + inner)
+    adf = e.call('adfbiodivine::Adf::hybrid_step', [rb]) if backend == 'hyb' else e.call('adfbiodivine::Adf::hybrid_step_opt', [rb, False])
+    ra = Ref([adf], 0); bdd = adf.f[e.field('Adf', 'bdd')]
+    if inner == 'stable_rew2': return list(e.call('adf::Adf::stable_bdd_representation', [ra, rb]).items), {}, bdd
+    res, side = run_proc(e, inner, ra, adf)
+    return res, side, bdd
 
 
 def concrete_case(m, tabs, p):
@@ -129,8 +169,11 @@ def sem_job(e, p):
         m = sat_model(e_, True)
         if m is not None: report(e_, 'non-termination', what='%s exceeds every bound (%s)' % (proc, msg[:200]), case=concrete_case(m, tabs, p), **extra(m))
     e.hooks['on_panic'] = on_panic; e.hooks['on_bound'] = on_bound
-    adf, ra, bdd = A.make_adf(e, tabs, n)
-    res, side = run_proc(e, proc, ra, adf)
+    if split_backend(proc)[0] == 'naive':
+        adf, ra, bdd = A.make_adf(e, tabs, n)
+        res, side = run_proc(e, proc, ra, adf)
+    else:
+        res, side, bdd = run_backend(e, proc, tabs, n)
     got = [A.classes(e, v) for v in res]
     wrong = answer_mismatch(e, p['fam'], tabs, n, proc, got, canary)
     if wrong is not None:
@@ -139,7 +182,7 @@ def sem_job(e, p):
     if side.get('consumer_would_block') or ('senders_after' in side and side['senders_after'] != 1):
         m = sat_model(e, True)
         report(e, 'sender-not-dropped', what='%s returned without dropping the sender it was given' % proc, case=concrete_case(m, tabs, p), **extra(m))
-    return {'proc': proc, 'result': got, 'nodes': len(bdd_nodes(e, bdd)), 'choices': e.hooks.get('custom_choices'), 'draws': e.hooks.get('draws', 0)}
+    return {'proc': proc, 'result': got, 'nodes': len(bdd_nodes(e, bdd)) if bdd is not None else None, 'choices': e.hooks.get('custom_choices'), 'draws': e.hooks.get('draws', 0)}
 
 # ------------------------------------------------------------------ job lists
 
@@ -270,6 +313,16 @@ def validate(ctx, tier, seed, procs, texts=True):
             out = nat.call(native_cmd(case, {'raw': True}), timeout=20)
             eng.reset_path([]); eng.path_violations = []
             try:
+                if split_backend(proc)[0] != 'naive':
+                    # biodivine-based procedures run on the contract model: the answers (T/F/u per statement, in the order listed) must equal the
+                    # real library's.  Handles inside a bridged store are not compared: biodivine's node layout depends on how a diagram was
+                    # computed (measured: high-branch-first post-order after eval_expression, other orders after restrict), the model's does not.
+                    # The rewriting-based procedures list models in the order of biodivine's valuation iterator: compared as multisets.
+                    res, side, bdd = run_backend(eng, proc, [[bool(b) for b in t] for t in tabs], n)
+                    mine = [A.classes(eng, v) for v in res]; theirs = out.get('result')
+                    if split_backend(proc)[1] in ('stable_rew', 'stable_rew2'): mine = sorted(mine); theirs = sorted(theirs or [])
+                    if theirs != mine: mism.append('%s on %s: native %s / mirse %s' % (proc, json.dumps(tabs), str(out)[:300], mine))
+                    cnt += 1; continue
                 adf, ra, bdd = A.make_adf(eng, [[bool(b) for b in t] for t in tabs], n)
                 res, side = run_proc(eng, proc, ra, adf)
                 mine = [ivec(eng, v) for v in res]
